@@ -155,10 +155,11 @@ Pages ==
 
 \* split by a cheap structural hash so that parallel TLC processes share the work
 Hash(page) == Len(Render(page))
-VARIABLE page
-Init == page \in {p \in Pages : Hash(p) % Parts = Part}
-Next == FALSE /\ UNCHANGED page
-Spec == Init /\ [][Next]_page
+\* `done` only keeps TLC from evaluating the invariant twice per structure
+VARIABLES page, done
+Init == page \in {p \in Pages : Hash(p) % Parts = Part} /\ done = FALSE
+Next == ~done /\ done' = TRUE /\ UNCHANGED page
+Spec == Init /\ [][Next]_<<page, done>>
 
 Ideal == Run(Render(page), {})
 Laws == /\ Admissible(page)
@@ -168,18 +169,14 @@ Emit ==
   LET a == Render(page)
       r == IF Known = {} THEN Ideal ELSE Run(a, Known)
   IN PrintT(<<"CASE", ToJson([page |-> page, text |-> a, mt |-> r.stack[1], cov |-> r.cov])>>)
-GenInv == Laws /\ Emit
-TypeOnly == Len(page) > 0
-RenderOnly == Len(Render(page)) > 0
-EncOnly == Len(Encode(Render(page)).text) > 0
-LexOnly == Len(Lex(Encode(Render(page)).text, {})) > 0
-RunOnly == ~Ideal.oof
+GenInv == done \/ (Laws /\ Emit)
 \* FILE universe: pages come from outside, the law is reported instead of asserted
 EmitF ==
   LET a == Render(page)
       r == IF Known = {} THEN Ideal ELSE Run(a, Known)
   IN PrintT(<<"CASE", ToJson([page |-> page, text |-> a, mt |-> r.stack[1], cov |-> r.cov,
                               law |-> Laws])>>)
+GenInvF == done \/ EmitF
 \* Demo: with the found behaviour of table_cell_fn the law fails (a caption followed by a data cell)
-DemoAsIs == Equiv(Run(Render(page), AllParserDevs).stack[1], TreeOf(page))
+DemoAsIs == done \/ Equiv(Run(Render(page), AllParserDevs).stack[1], TreeOf(page))
 =============================================================================
